@@ -8,3 +8,4 @@ open PgmVerif
 #print axioms PgmVerif.C12_parents_separate
 #print axioms PgmVerif.C12_nonadjacent_separable
 #print axioms PgmVerif.C12_toDag_acyclic
+#print axioms PgmVerif.C12_meek_rules_sound
